@@ -138,7 +138,7 @@ class Gen:
         if dtype == int:
             ops += ['BoolToInt', 'FloorDivide', 'Mod']
         if dtype == float:
-            ops += ['IntToFloat', 'Trig', 'Sqrt', 'Reciprocal']
+            ops += ['IntToFloat', 'Trig', 'Sqrt', 'Reciprocal', 'Polyval', 'PolyGradVal', 'PolyMulVal', 'Legendre']
             if nd >= 2 and shape[-1] == shape[-2] and 1 <= shape[-1] <= 3:
                 ops += ['Inverse']
             ops += ['Determinant']
@@ -293,6 +293,41 @@ class Gen:
         eye = ev.Diagonalize(ev.Constant(types.arraydata(numpy.full(shape[:-1], 4.))))
         scaled = ev.Multiply(types.frozenmultiset([func, ev.Constant(types.arraydata(numpy.full(shape, 1/16)))]))
         return ev.Inverse(ev.Add(types.frozenmultiset([eye, scaled])))
+
+    def _ncoeffs(self, nv, p):
+        import math
+        return math.comb(nv + p, nv)
+
+    def mk_Polyval(self, dtype, shape, depth):
+        k = self.rng.randint(0, len(shape))
+        nv = self.rng.choice([0, 1, 1, 2, 2, 3]); p = self.rng.choice([0, 1, 2, 2, 3])
+        coeffs = self.array(float, shape[k:] + (self._ncoeffs(nv, p),), depth-1)
+        points = self.array(float, shape[:k] + (nv,), depth-1)
+        return ev.Polyval(coeffs, points)
+
+    def mk_PolyGradVal(self, dtype, shape, depth):
+        # Polyval(PolyGrad(c), x)[..., v] summed over v
+        k = self.rng.randint(0, len(shape))
+        nv = self.rng.choice([1, 2, 2, 3]); p = self.rng.choice([0, 1, 2, 3])
+        coeffs = self.array(float, shape[k:] + (self._ncoeffs(nv, p),), depth-1)
+        points = self.array(float, shape[:k] + (nv,), depth-1)
+        return ev.Sum(ev.Polyval(ev.PolyGrad(coeffs, nv), points))
+
+    def mk_PolyMulVal(self, dtype, shape, depth):
+        from nutils_poly import MulVar
+        nvars = self.rng.choice([1, 2, 2, 3])
+        vars = tuple(self.rng.choice([MulVar.Left, MulVar.Right, MulVar.Both]) for _ in range(nvars))
+        nl = sum(v != MulVar.Right for v in vars); nr = sum(v != MulVar.Left for v in vars)
+        pl = self.rng.choice([0, 1, 2]); pr = self.rng.choice([0, 1, 2])
+        k = self.rng.randint(0, len(shape))
+        left = self.array(float, shape[k:] + (self._ncoeffs(nl, pl),), depth-1)
+        right = self.array(float, shape[k:] + (self._ncoeffs(nr, pr),), depth-1)
+        points = self.array(float, shape[:k] + (nvars,), depth-1)
+        return ev.Polyval(ev.PolyMul(left, right, vars), points)
+
+    def mk_Legendre(self, dtype, shape, depth):
+        if not shape: return None
+        return ev.Legendre(self.array(float, shape[:-1], depth-1), shape[-1]-1) if shape[-1] >= 1 else None
 
     def _loop(self):
         self.nloops += 1
